@@ -1,5 +1,5 @@
 //! C12 (path well-formedness): skrifa's point-stream -> path conversion against the grammar
-//! (MoveTo Segment* Close)* with finite coordinates. Pulled into skrifa/src/outline/path.rs as
+//! (MoveTo Segment* Close)*. Pulled into skrifa/src/outline/path.rs as
 //! `mod verif_harness`.
 //!
 //! @assume coordinates are i32 font units (Point<i32>, the unscaled path; the scaled paths run the same code on F26Dot6/Fixed)
@@ -23,15 +23,10 @@ struct GrammarPen {
 }
 
 impl GrammarPen {
-    fn coords(&mut self, c: &[f32]) {
-        let mut i = 0;
-        while i < c.len() {
-            if !c[i].is_finite() {
-                self.non_finite = true;
-            }
-            i += 1;
-        }
-    }
+    // coordinates are i32 -> f32 casts, which are always finite; checking them would put the
+    // floating-point casts into the SAT query (measured: > 300 s instead of seconds), so only the
+    // command grammar is checked
+    fn coords(&mut self, _c: &[f32]) {}
 }
 
 impl OutlinePen for GrammarPen {
